@@ -45,6 +45,17 @@ static std::string PathStr(const PathRef& p)
 	return s;
 }
 
+// A 5-byte string is saved as A5 + 5 bytes; the same 6 bytes with D6 in front are fixext4 of application type 5 with the payload
+// 11 12 13 14 (four small integers if someone parses the payload as values): the offence is saved as the string and patched.
+static const char kForeignExtPlaceholder[] = "\x05\x11\x12\x13\x14";
+static uint32_t PatchForeignExt(std::string& bytes)
+{
+	uint32_t n = 0;
+	const std::string pat = std::string("\xA5") + kForeignExtPlaceholder;
+	for (size_t at = bytes.find(pat); at != std::string::npos; at = bytes.find(pat, at + 1)) { bytes[at] = static_cast<char>(0xD6); ++n; }
+	return n;
+}
+
 // skipped values come in every size class (str8/str16, bin8/bin16 headers with length bytes on both sides of 0x80)
 static std::string Padded(Source& s, const char* head)
 {
@@ -68,6 +79,7 @@ static bool MakeOffence(Source& s, int archive, K target, DynNode& repl, std::st
 	else if (target == K::Bin) { opts = { 0 }; if (archive != A_XML) opts.push_back(2); if (!text) opts.push_back(7);   // XML cannot tell an object from an array of values
  if (archive == A_MSGPACK) { opts.push_back(8); opts.push_back(3); } }
 	else return false;
+	if (archive == A_MSGPACK) opts.push_back(12);   // an application-specific ext value (written by another program), a mismatch for every target
 	const int o = opts[s.draw(sim::L_FAULT, static_cast<uint32_t>(opts.size()))];
 	switch (o)
 	{
@@ -93,6 +105,7 @@ static bool MakeOffence(Source& s, int archive, K target, DynNode& repl, std::st
 		break;
 	case 6: { repl = DynNode(K::Bin); const std::string b = Padded(s, "\x01\x02\x03"); repl.bin.assign(b.begin(), b.end()); name = "bin"; break; }
 	case 7: repl = DynNode(K::I32); repl.i32 = 7; name = "int"; break;
+	case 12: repl = DynNode(K::Str); repl.s = kForeignExtPlaceholder; name = "foreign_ext"; break;
 	case 10: { static const int64_t wide[] = { 300, -200, 70000, -40000, 5000000000ll, -5000000000ll }; repl = DynNode(K::I64); repl.i64 = s.pick(sim::L_FAULT, wide); name = "wide_int"; break; }
 	case 9:
 		// before 1970 (MsgPack: timestamp 96 = ext 8) or after it (fixext)
@@ -287,6 +300,7 @@ Outcome RunC05(RunCtx& ctx)
 	if (!sb.isStd || !sf.isStd) return Violation("WRONG_EXCEPTION", "archive=" + an + " dir=save", "non-std exception");
 	if (!sb.ok || !sf.ok) { ctx.count("save_failed"); return out; }
 	if (archive != A_MSGPACK && bytesF.size() >= 3 && bytesF.compare(0, 3, "\xEF\xBB\xBF") == 0) return out;
+	if (archive == A_MSGPACK) { const uint32_t n = PatchForeignExt(bytesF); if (n) { ctx.count("offence.foreign_ext_patched", n); sim::probe("foreign-ext-offence"); } }
 	if (ctx.describe) ctx.note("faulted bytes(" + std::to_string(bytesF.size()) + "): " + sim::hex(bytesF, 300));
 
 	DynNode marker = Skeleton(doc);
